@@ -2,6 +2,7 @@
 build-lattice queries.  No abstract interpretation here."""
 import json
 import os
+import re
 import subprocess
 import tempfile
 import shutil
@@ -212,6 +213,9 @@ def type_uses_alloc(prog, tid, seen):
     return None
 
 
+SCANNERS = ("match_uri_vectored", "match_header_value_vectored", "match_header_name_vectored")
+
+
 # ---- C15 (ii): option read-sets -----------------------------------------------------------------
 REQ_FIELDS = {"allow_multiple_spaces_in_request_line_delimiters", "allow_space_before_first_header_name", "ignore_invalid_headers_in_requests"}
 RESP_FIELDS = {"allow_multiple_spaces_in_response_status_delimiters", "allow_spaces_after_header_name_in_responses",
@@ -225,7 +229,7 @@ def config_reads(prog, inst):
     b = inst["body"]
     if not b:
         return out, whole
-    ptids = [i for i, t in enumerate(prog.types) if t and t["k"] == "adt" and M.norm_path(t["path"]) == "ParserConfig"]
+    ptids = [i for i, t in enumerate(prog.types) if t and t["k"] == "adt" and M.tail_is(M.norm_path(t["path"]), "ParserConfig")]
     if not ptids:
         return out, whole
     pt = prog.types[ptids[0]]
@@ -315,7 +319,7 @@ def c20_structure(c, tier):
     c.oblige(not setters, "set_cursor-reachable", {"rule": "set_cursor-reachable", "detail": "Bytes::set_cursor (arbitrary repositioning) is reachable from a parse entry point"})
     # writers of Bytes.cursor: only methods of Bytes itself
     writers = set()
-    btids = [i for i, t in enumerate(prog.types) if t and t["k"] == "adt" and M.norm_path(t["path"]) == "iter::Bytes"]
+    btids = [i for i, t in enumerate(prog.types) if t and t["k"] == "adt" and M.tail_is(M.norm_path(t["path"]), "Bytes")]
     c.oblige(bool(btids), "anchor-missing|iter::Bytes", {"rule": "anchor-missing", "detail": "type iter::Bytes not found"})
     if btids:
         names = [f["name"] for f in prog.types[btids[0]]["variants"][0]["fields"]]
@@ -338,7 +342,7 @@ def c20_structure(c, tier):
                             tid = pe[2]
                         elif pe[0] in ("index", "cidx"):
                             tid = t["elem"]
-        bad = sorted(w for w in writers if not w.startswith("iter::Bytes::") and not w.startswith("<iter::Bytes"))
+        bad = sorted(w for w in writers if not re.search(r"(^|::|<)Bytes(::|<| as )", w))
         c.oblige(not bad, "cursor-writer|%s" % ",".join(bad), {"rule": "cursor-writer", "detail": "the cursor is assigned outside iter::Bytes: %s" % bad})
         c.coverage["cursor_writers"] = sorted(writers)
     # Bytes::new call sites in the cone: once per entry point
@@ -348,7 +352,7 @@ def c20_structure(c, tier):
         n = 0
         for i in cone(prog, inst, local_only=True):
             for cal, t, _ in prog.callees(i):
-                if cal is not None and prog.insts[cal]["npath"] == "iter::Bytes::new":
+                if cal is not None and M.tail_is(prog.insts[cal]["npath"], "Bytes::new"):
                     n += 1
         c.oblige(n == 1, "bytes-new-count|%s|%d" % (name, n), {"rule": "bytes-new-count", "detail": "%s constructs %d cursors over the input (expected exactly 1)" % (name, n)})
 
@@ -386,11 +390,11 @@ def run_lattice_job(j):
                 prog = Program(json.load(fh))
             providers = {}
             for i in prog.insts:
-                if i["local"] and i["body"] and not i["npath"].startswith("simd::"):
+                if i["local"] and i["body"] and not M.is_scanner_path(i["npath"], SCANNERS):
                     for cal, t, _ in prog.callees(i):
                         if cal is not None:
                             n = prog.insts[cal]["npath"]
-                            if n.startswith("simd::") and n.split("::")[-1] in ("match_uri_vectored", "match_header_value_vectored", "match_header_name_vectored"):
+                            if M.is_scanner_path(n, SCANNERS):
                                 providers.setdefault(n.split("::")[-1], set()).add(n)
             res["providers"] = {k: sorted(v) for k, v in providers.items()}
             res["cfgs"] = sorted(x for x in prog.cfgs if x.startswith("httparse") or x.startswith("feature="))
